@@ -252,7 +252,12 @@ def oracle(case, obs):
 
 # --------------------------------------------------------------------------------------------
 
-KEYS = [b"a", b"b", b"ab", b"\xff\xfe", b"k" * 10, b"?>?", b"\x00"]
+# keys chosen so that every character class of the encoded alphabet (A-Z a-z 0-9 + - = _) occurs in file names,
+# at the start, in the middle and before the terminator: ">>>" -> "Pj4+_", fb ef be -> "++++_", ff ff ff -> "----_",
+# fb -> "+w==_", "?>?" -> "Pz4-_", 60 bytes -> an inner "_" (encodebytes breaks lines every 76 characters)
+KEYS = [b"a", b"b", b"ab", b"\xff\xfe", b"k" * 10, b"?>?", b"\x00", b">>>", b"\xfb\xef\xbe", b"\xff\xff\xff",
+        b"\xfb", b"\xfb\xff", b"a>>", b">>>a", b"\xf8", b"0" * 60, b"\xfb\xef\xbe" * 20, b"~~~\x7f"]
+SPECIAL = [k for k in KEYS if any(c in "+-" for c in base64.encodebytes(k).decode().replace("/", "-").strip())]
 
 
 def _val(rng):
@@ -265,6 +270,8 @@ def gen(rng, tier):
     cases = []
     for _ in range(170 if quick else 2000):
         keys = rng.sample(KEYS, rng.choice([1, 2, 2, 3]))
+        if rng.random() < 0.5:
+            keys[0] = rng.choice(SPECIAL)
         if rng.random() < 0.12:
             keys[0] = b""                      # the empty key is a key like any other
         live = set()
@@ -280,7 +287,10 @@ def gen(rng, tier):
         cases.append({"k": "hist", "ops": ops})
     for _ in range(120 if quick else 1500):
         files = []
-        for k in rng.sample(KEYS, rng.choice([1, 2, 3])):
+        ks = rng.sample(KEYS, rng.choice([1, 2, 3]))
+        if rng.random() < 0.5:
+            ks[0] = rng.choice(SPECIAL)
+        for k in dict.fromkeys(ks):
             e = [H(k)] + [H(_val(rng)) if rng.random() < 0.5 else None for _ in range(3)]
             if e[1:] == [None, None, None]:
                 e[rng.randrange(1, 4)] = H(b"v")
@@ -305,6 +315,11 @@ def corpus():
         {"k": "rec", "files": [[H(b"a"), None, None, H(b"new")], [H(b"b"), H(b"old"), H(b"pa"), H(b"par")],
                                [H(b"ab"), None, H(b"p"), None]]},
         {"k": "rec", "files": [[H(b"a"), H(b"v"), H(b"n"), H(b"r")]]},
+        # encoded names with '+', '-', '=', inner and trailing '_'
+        {"k": "hist", "ops": [["set", H(b">>>"), H(b"1")], ["set", H(b">>>"), H(b"22")], ["set", H(b"\xfb\xef\xbe"), H(b"3")],
+                              ["set", H(b"\xff\xff\xff"), H(b"4")], ["set", H(b"\xff\xff\xff"), H(b"5")]]},
+        {"k": "rec", "files": [[H(b">>>"), None, None, H(b"new")], [H(b"\xfb\xef\xbe"), None, H(b"p"), None],
+                               [H(b"\xff\xff\xff"), H(b"o"), None, H(b"r")], [H(b"0" * 60), None, H(b"p"), H(b"n")]]},
     ]
 
 
@@ -348,7 +363,7 @@ SPEC = Spec(
     nontrivial=lambda c, o: o.count(";") > 3,
     histogram=lambda c, o: c["k"] + (":emptykey" if any(x[1 if c["k"] == "hist" else 0] == "" for x in c.get("ops", c.get("files"))) else ""),
     rule="hist: histories of 1-5 set/replace/delete operations over 1-3 keys (incl. the empty key, NUL, non-UTF-8 "
-         "keys; values of 0-5 bytes incl. '.', LF, NUL) on a real DirDBM; EVERY crash point (system-call boundary "
+         "keys, and keys whose file names contain '+', '-', '=', inner '_' at every position; values of 0-5 bytes incl. '.', LF, NUL) on a real DirDBM; EVERY crash point (system-call boundary "
          "and partial-write length) is replayed with real system calls, reopened with the real DirDBM, and every "
          "proper prefix of that recovery's own steps is replayed and reopened again; rec: random well-formed "
          "directories with k / k.new / k.rpl present in every combination for 1-3 keys (thorough: all 63 "
